@@ -181,6 +181,26 @@ pub fn run_job(job: &Value) -> Value {
                 }
             }
             let mut out = json!({"id":id,"compile":{"k":"ok"},"res":res});
+            // an optional second spelling of the pattern, run through the same calls (law pairs, C20)
+            if let (Some(p2), Some(f2)) = (cps_to_string(&job["pat2"]), cps_to_string(&job["flags2"])) {
+                regexml::verif_take_cutoffs();
+                match compile(&p2, &f2, job["x2"].as_bool().unwrap_or(true), false) {
+                    Err(e) => {
+                        out["compile2"] = e;
+                        out["res2"] = json!([]);
+                    }
+                    Ok(re2) => {
+                        let mut res2 = Vec::new();
+                        if let Some(calls) = job["calls"].as_array() {
+                            for c in calls {
+                                res2.push(run_call(&re2, c));
+                            }
+                        }
+                        out["compile2"] = json!({"k":"ok"});
+                        out["res2"] = Value::Array(res2);
+                    }
+                }
+            }
             if compile_cut != 0 {
                 out["compile"]["cut"] = json!(compile_cut);
             }
